@@ -57,7 +57,7 @@ def sweep_history(prop, seed, agg, opts):
             continue
         for k in w.miss_log.get(o["id"], []):
             for kind in fault_kinds_for(keys[k]):
-                if kind in ("ERR_MID",):
+                if kind in ("ERR_MID", "RET_FALSE_MID"):
                     for kk in (0, 1, 3):
                         plan.append((o, k, kind, {"k": kk}))
                 elif kind in ("EIO", "ENOSPC", "SHORT_WRITE"):
